@@ -1,23 +1,38 @@
 """
 C01 — decoding yields exactly the values FM-94 assigns to the bit stream.
 
-Theorems: lean/BufrModel/Props/C01*.lean.
-Tie: (a) corpus: every sampled file of tests/data and tests/benchmark_data is decoded by the
-implementation and by the model (with the table group the implementation selected streamed to the
-driver); (b) generated: templates from the grammar of harness/coder_io.py (elements, sequences, nested
-fixed / delayed replication, operators 201-208, 221, bitmap constructs 222-225/232/235-237), values
-from the model's generate mode, 1-4 subsets, compressed or not, editions 2-4; the message is encoded by
-the implementation AND re-assembled from the model encoder's bits, and each is decoded by both sides.
+Theorems: lean/BufrModel/Props/C01*.lean (C01.lean: one field; C01Flat.lean: flat FM-94 reading = build-then-walk;
+C01Tables.lean: the result depends on the tables only through the definitions of the reachable descriptors).
+Tie, all on ONE aged, re-used implementation Decoder per option set (harness/objs.py):
+ (a) corpus: every sampled file of tests/data and tests/benchmark_data is decoded by the implementation and by the model
+     over the table group that SECTION 1 names (worked out by the harness, tables_io.expected_sn; the group the decoder
+     reports must be that one);
+ (b) grammar: templates from the grammar of harness/coder_io.py over the default table group (elements, sequences, nested
+     fixed / delayed replication, operators 201-208, 221, bitmap constructs 222-225/232/235-237), values from the model's
+     generate mode, 1-4 subsets, compressed or not, editions 2-4; the message is encoded by the implementation AND
+     re-assembled from the model encoder's bits, and each is decoded by both sides;
+ (c) operator chains: 1-3 bit-map operators of all five kinds per template - define / recall (237000) / cancel (237255,
+     235000) / re-define without cancelling - from harness/c01gen.py and (a share) from the chain generator of
+     harness/props/c07.py (guarded import: names make_cases, FAMILIES), same pipeline as (b);
+ (d) table-version families (harness/c01gen.py): one descriptor list under 2-3 of the bundled table groups (every master
+     version and local table set found under pybufrkit/tables), templates preferring the ids whose definition differs between
+     the groups; per member the values, bits and message come from the model over the member's own tables; the members are
+     decoded by the same Decoder object one after the other, forwards then backwards, plain and with
+     compiled_template_cache_max; each decode is compared with the model over the member's own tables.
 Compared: labels, values (DESIGN 3.4 float rule), attribute links, error family.
 Oracle: by the C01 theorems the model's decode is the FM-94 value assignment, so a disagreement on a
 well-formed input is the failing input.
 """
 import json
+import os
+import time
 
 from harness import core, tables_io
 from harness import coder_io as C
 from harness import coderprops as P
 from harness import msgs
+from harness import objs
+from harness import c01gen as G
 
 PROP = 'C01'
 
@@ -25,15 +40,21 @@ META = dict(
     claimed=True,
     text='Kernel-checked theorems about the Lean model of the template walk and the decoder primitives (value formula '
          '(raw+ref)/10^scale under 201/202/203/207, missing iff all ones and width>1, unsigned code/flag/associated/skipped '
-         'fields, bytes for character fields, labels; frame lemma) for all templates and bit strings, plus model-vs-'
-         'implementation correspondence on the corpus and on generated messages of every construct the walk knows.',
+         'fields, bytes for character fields, labels; frame lemma; flat FM-94 reading = build-then-walk; the decode result depends '
+         'on the table group only through the entries reachable from the descriptor list) for all templates and bit strings, plus '
+         'model-vs-implementation correspondence, on one re-used Decoder object, on the corpus (tables taken from section 1), on '
+         'generated messages of every construct the walk knows incl. chains of bit-map operators (define / recall / cancel / '
+         're-define), and on families of one descriptor list under 2-3 of the bundled master/local table versions decoded '
+         'consecutively in both orders (plain and compiled).',
     technique='Lean 4 theorems (structural induction over the template tree, bit arithmetic) + checked model/implementation correspondence',
     note='The model mirrors coder.py/decoder.py register by register; IEEE doubles are replaced by exact decimals and tied by a 2-ulp comparison.',
 )
 
 
-def report(ctx, c, why, b=None, stage='decode'):
+def report(ctx, c, why, b=None, stage='decode', stream=None):
     sig = {'stage': stage, 'features': sorted(P.classify(c.ids))}
+    if stream and stream != 'grammar':
+        sig['stream'] = stream
     rep = c.replay()
     rep['why'] = why
     if b is not None:
@@ -41,10 +62,244 @@ def report(ctx, c, why, b=None, stage='decode'):
     ctx.violation('%s: %s (ids %s)' % (stage, why, c.ids[:40]), rep, signature=sig)
 
 
+_SHRUNK = set()
+
+
+def as_mapping(resp):
+    """the model records the links as the LIST of assignments, the implementation's `bitmap_links` is a dict (a later
+    assignment to the same key wins): compare the final mapping"""
+    for sub in (resp.get('subsets') or []):
+        m = {}
+        for a, o in sub['l']:
+            m[a] = o
+        sub['l'] = sorted([a, o] for a, o in m.items())
+    return resp
+
+
+def assemble(drv, pairs):
+    """pairs: (message json with empty data, edition, data bits) -> message bytes put together by the MODEL (framing
+    model of C04 around the model encoder's bits), None where the model refuses"""
+    res = drv.batch([msgs.encode_req(js, ed, bits) for js, ed, bits in pairs])
+    return [bytes.fromhex(r['hex']) if 'hex' in r else None for r in res]
+
+
+def run_single(ctx, drv, treq, cases, stream, shrinkable=True):
+    """cases with values, one table group (treq): encode by implementation and model, decode everything by both"""
+    enc = P.run_encode(drv, treq, cases)
+    items = []
+    # whole messages assembled by the MODEL (framing model of C04 + the model encoder's data bits): the
+    # decoder is then exercised independently of what the implementation's encoder accepts or produces
+    todo = []
+    for c, impl, model in enc:
+        if impl[0] == 'ok':
+            items.append((c, impl[1]))
+        else:
+            ctx.count('encoder-refused')
+        if 'bits' in model:
+            js = C.make_message_json(c.ids, [[] for _ in range(c.n)], c.comp, edition=c.edition)
+            todo.append((c, (js, c.edition, model['bits'])))
+    for (c, _), b in zip(todo, assemble(drv, [t for _, t in todo])):
+        if b is not None:
+            items.append((c, b))
+            ctx.count('model-assembled')
+    decoded = [(c, b, impl, as_mapping(model)) for c, b, impl, model in P.run_decode(drv, treq, items)]
+    # the flat FM-94 reading (Spec.flatWalk; C01_flat_eq_tree) evaluated on every case next to the tree walk
+    flat = drv.batch([treq] + [{'op': 'dec-data-flat', 'ids': c.ids, 'compressed': c.comp, 'n': c.n, 'bits': C.data_bits(b)}
+                               for c, b in items])[1:]
+    for (c, b, impl, model), fl in zip(decoded, flat):
+        check_flat(ctx, c, b, model, as_mapping(fl))
+    for c, b, impl, model in decoded:
+        ctx.case({'ids': c.ids, 'n': c.n, 'compressed': c.comp, 'edition': c.edition}, nontrivial=P.nontrivial(c),
+                 sample=len(ctx.samples) < 6)
+        ctx.traces += 1
+        ctx.count('stream:' + stream)
+        ctx.count('compressed' if c.comp else 'uncompressed')
+        ctx.count('edition-%d' % c.edition)
+        for f in P.classify(c.ids) | G.chain_features(c.ids):
+            ctx.count(f)
+        if impl[0] != 'ok':
+            ctx.count('decode-' + impl[0])
+        why = P.compare_decode(impl, model)
+        if why:
+            small = c
+            # shrinking costs driver runs: only for the first failure of each structural signature, a handful per run
+            sigkey = (stream, tuple(sorted(P.classify(c.ids))))
+            if shrinkable and type(c) is P.Case and sigkey not in _SHRUNK and len(_SHRUNK) < 6:
+                _SHRUNK.add(sigkey)
+                def still(c2):
+                    cs = P.gen_values(drv, treq, [c2], ctx.rng('shrink'))
+                    if not cs:
+                        return False
+                    e = P.run_encode(drv, treq, cs)[0]
+                    if e[1][0] != 'ok':
+                        return False
+                    r = P.run_decode(drv, treq, [(c2, e[1][1])])[0]
+                    return P.compare_decode(r[2], as_mapping(r[3])) is not None
+                small = P.shrink(c, still)
+            if small is not c:
+                cs = P.gen_values(drv, treq, [small], ctx.rng('shrink'))
+                e = P.run_encode(drv, treq, cs)[0]
+                r = P.run_decode(drv, treq, [(small, e[1][1])])[0]
+                report(ctx, small, P.compare_decode(r[2], as_mapping(r[3])) or why, e[1][1], stream=stream)
+            else:
+                report(ctx, c, why, b, stream=stream)
+
+
+def check_flat(ctx, c, b, model, fl):
+    if fl.get('wf') and (fl.get('subsets') != model.get('subsets') or fl.get('err') != model.get('err')):
+        ctx.violation('the flat FM-94 reading and the tree walk of the model disagree (contradicts theorem C01_flat_eq_tree)',
+                      {**c.replay(), 'message_hex': b.hex()}, signature={'stage': 'flat-vs-tree'}, no_failing_input=True)
+    ctx.count('flat-reading-wf' if fl.get('wf') else 'flat-reading-not-wf')
+
+
+def c07_chain_cases(ctx, drv, treq, rng, count):
+    """a share of the messages comes from the operator-chain generator of the C07 check (bit-maps that differ between
+    subsets, recalls after a run that stopped early, associated fields in force, all base families).  Coupled by
+    name only; when the generator is not there (or no longer callable this way) the caller generates more chains
+    of its own instead."""
+    try:
+        if os.environ.get('VERIF_C01_NO_C07'):      # self-test switch: the check must not depend on the other generator
+            raise ImportError('switched off by VERIF_C01_NO_C07')
+        from harness.props import c07
+        make, fams = c07.make_cases, tuple(c07.FAMILIES)
+    except Exception as e:  # noqa
+        ctx.notes.append('operator-chain generator of harness/props/c07.py not available (%s: %s)' % (type(e).__name__, e))
+        return None
+    plans = []
+    for _ in range(count):
+        fam = rng.choice(fams)
+        pl = {'family': fam, 'n': rng.choice([1, 1, 2, 3]), 'comp': rng.random() < 0.45, 'stream': 'random',
+              'edition': rng.choice([4, 4, 3, 2]), 'steps': rng.choice([2, 2, 3, 3, 1])}
+        if fam == 'long':
+            pl['nmax'] = 40
+        if rng.random() < 0.1:
+            pl['assoc_open'] = True
+        plans.append(pl)
+    try:
+        cases = make(drv, treq, rng, plans)
+        for c in cases:
+            c.ids, c.valss, c.n, c.comp, c.edition, c.replay()     # the interface this check relies on
+        return cases
+    except core.MachineryError:
+        raise
+    except Exception as e:  # noqa
+        ctx.notes.append('operator-chain generator of harness/props/c07.py not usable (%s: %s)' % (type(e).__name__, e))
+        return None
+
+
+# -------------------------------------------------------------------------------------------------------------
+# table-version families
+COMPILED_MAX = 6      # small: the compiled-template cache of the re-used Decoder is evicted and refilled during a run
+
+
+def prepare_families(ctx, drv, rng, fams):
+    """values, bits and whole messages per member, all from the MODEL run over the member's own table group; the
+    implementation's Encoder (one re-used object) encodes the members of a family one after the other as well"""
+    members = [c for fam in fams for c in fam]
+    rnd = {}
+    for fam in fams:
+        rnd[fam[0].fam] = C.rnd_bits(rng, 6000)
+    res = G.batch_grouped(drv, [(c.group, {'op': 'gen-data', 'ids': c.ids, 'n': c.n, 'shared': c.comp, 'rnd': rnd[c.fam],
+                                           'force': [[k, v * (1 if c.comp else c.n)] for k, v in c.forced]}) for c in members])
+    live = []
+    for c, r in zip(members, res):
+        if 'err' in r:
+            c.note = 'gen:' + r['err']
+            ctx.count('family-member-without-values')
+            continue
+        c.valss = r['vals']
+        live.append(c)
+    res = G.batch_grouped(drv, [(c.group, {'op': 'enc-data', 'ids': c.ids, 'compressed': c.comp, 'vals': c.valss}) for c in live])
+    todo = []
+    for c, r in zip(live, res):
+        if 'bits' in r:
+            todo.append((c, (G.member_json(c, [[] for _ in range(c.n)]), c.edition, r['bits'])))
+        else:
+            ctx.count('family-member-model-encoder-refused')
+    for (c, _), b in zip(todo, assemble(drv, [t for _, t in todo])):
+        if b is not None:
+            c.msgs.append(('model-assembled', b))
+    for fam in fams:
+        for c in fam:
+            if c.valss is None:
+                continue
+            st, b, _ = C.impl_encode(G.member_json(c, P.py_inputs(c.valss)))
+            if st == 'ok' and all(b != x for _, x in c.msgs):
+                c.msgs.append(('implementation-encoded', b))
+                ctx.count('family-message-implementation-encoded-differs-from-model-assembled')
+    # expected values: the model over the member's own tables
+    pairs, where = [], []
+    for c in members:
+        for k, (_, b) in enumerate(c.msgs):
+            req = {'ids': c.ids, 'compressed': c.comp, 'n': c.n, 'bits': C.data_bits(b)}
+            pairs.append((c.group, dict(req, op='dec-data')))
+            pairs.append((c.group, dict(req, op='dec-data-flat')))
+            where.append((c, k))
+    res = G.batch_grouped(drv, pairs)
+    for (c, k), dec, fl in zip(where, res[0::2], res[1::2]):
+        if c.model is None:
+            c.model = {}
+        c.model[k] = as_mapping(dec)
+        check_flat(ctx, c, c.msgs[k][1], c.model[k], as_mapping(fl))
+
+
+def family_sequence(fam):
+    """the order in which one Decoder object sees the messages of a family: members forwards, then backwards (every
+    message twice, every pair of neighbouring table groups in both orders)"""
+    live = [(c, k) for c in fam for k in range(len(c.msgs))]
+    return live + live[::-1]
+
+
+def run_families(ctx, drv, rng, count):
+    fams = G.gen_families(rng, count)
+    prepare_families(ctx, drv, rng, fams)
+    for fam in fams:
+        seq = family_sequence(fam)
+        if not seq:
+            continue
+        ctx.count('families')
+        ctx.count('family-of-%d-table-groups' % len(fam))
+        if fam[0].n_variant:
+            ctx.count('families-with-a-descriptor-defined-differently')
+        if any(c.group.local for c in fam):
+            ctx.count('families-with-local-tables')
+        for c in fam:
+            if c.msgs:
+                ctx.case({'ids': c.ids, 'n': c.n, 'compressed': c.comp, 'edition': c.edition, 'tables': c.group.name},
+                         nontrivial=P.nontrivial(c), sample=len(ctx.samples) < 6)
+                ctx.count('table-group:' + ('local' if c.group.local else 'v%d' % c.group.version))
+                for f in P.classify(c.ids) | G.chain_features(c.ids):
+                    ctx.count(f)
+        for variant, compiled in (('plain', None), ('compiled', COMPILED_MAX)):
+            for pos, (c, k) in enumerate(seq):
+                b = c.msgs[k][1]
+                impl = C.impl_decode(b, compiled)
+                ctx.traces += 1
+                ctx.count('family-decodes-' + variant)
+                if impl[0] != 'ok':
+                    ctx.count('decode-' + impl[0])
+                why = P.compare_decode(impl, c.model[k])
+                if why:
+                    report_family(ctx, fam, seq, pos, variant, why)
+                    break
+
+
+def report_family(ctx, fam, seq, pos, variant, why):
+    c, k = seq[pos]
+    before = [m.group.name for m, _ in seq[:pos]]
+    sig = {'stage': 'family-decode', 'variant': variant, 'features': sorted(P.classify(c.ids)), 'first-of-family': pos == 0}
+    rep = {'why': why, 'ids': c.ids, 'variant': variant, 'failing_position': pos,
+           'sequence': [{'tables': list(m.group.key), 'name': m.group.name, 'source': m.msgs[j][0], 'n_subsets': m.n, 'compressed': m.comp,
+                         'edition': m.edition, 'message_hex': m.msgs[j][1].hex()} for m, j in seq[:pos + 1]]}
+    ctx.violation('family (same descriptors under table groups %s), %s decoder, message under %s decoded after %s: %s (ids %s)' % (
+        [m.group.name for m in fam], variant, c.group.name, before or 'nothing of this family', why, c.ids[:40]), rep, signature=sig)
+
+
 def run(ctx):
     drv = ctx.driver
     rng = ctx.rng('main')
     ctx.rule = 'generated case: template has a replication, sequence or operator and at least one non-missing value; corpus file: decodes'
+    quick = ctx.tier == 'quick'
     # (a) corpus
     files = P.corpus_files(ctx.tier, ctx.rng('corpus'), quick_n=45)
     for path in files:
@@ -60,73 +315,73 @@ def run(ctx):
         if why:
             ctx.violation('corpus file %s: %s' % (path.split('/')[-1], why), {'file': path, 'why': why},
                           signature={'stage': 'corpus', 'file': path.split('/')[-1]})
-    # (b) generated
-    count = 700 if ctx.tier == 'quick' else 12000
+    t_b = time.time()
     treq = tables_io.group_request()
-    chunk = 350
+    # (b) generated over the default table group: the grammar of coder_io.TemplateGen
+    count = 560 if quick else 10000
+    chunk = 280
     done = 0
     while done < count:
         cases = P.gen_cases(rng, min(chunk, count - done), level=2)
         for c in cases:
             c.idx += done
         done += len(cases)
-        cases = P.gen_values(drv, treq, cases, rng)
-        enc = P.run_encode(drv, treq, cases)
-        items = []
-        # whole messages assembled by the MODEL (framing model of C04 + the model encoder's data bits): the
-        # decoder is then exercised independently of what the implementation's encoder accepts or produces
-        mreqs, mcases = [], []
-        for c, impl, model in enc:
-            if impl[0] == 'ok':
-                items.append((c, impl[1]))
-            else:
-                ctx.count('encoder-refused')
-            if 'bits' in model:
-                js = C.make_message_json(c.ids, [[] for _ in range(c.n)], c.comp, edition=c.edition)
-                mreqs.append(msgs.encode_req(js, c.edition, model['bits']))
-                mcases.append(c)
-        for c, r in zip(mcases, drv.batch(mreqs)):
-            if 'hex' in r:
-                items.append((c, bytes.fromhex(r['hex'])))
-                ctx.count('model-assembled')
-        decoded = P.run_decode(drv, treq, items)
-        # the flat FM-94 reading (Spec.flatWalk; C01_flat_eq_tree) evaluated on every case next to the tree walk
-        flat = drv.batch([treq] + [{'op': 'dec-data-flat', 'ids': c.ids, 'compressed': c.comp, 'n': c.n, 'bits': C.data_bits(b)}
-                                   for c, b in items])[1:]
-        for (c, b, impl, model), fl in zip(decoded, flat):
-            if fl.get('wf') and (fl.get('subsets') != model.get('subsets') or fl.get('err') != model.get('err')):
-                ctx.violation('the flat FM-94 reading and the tree walk of the model disagree (contradicts theorem C01_flat_eq_tree)',
-                              {**c.replay(), 'message_hex': b.hex()}, signature={'stage': 'flat-vs-tree'}, no_failing_input=True)
-            ctx.count('flat-reading-wf' if fl.get('wf') else 'flat-reading-not-wf')
-        for c, b, impl, model in decoded:
-            ctx.case({'ids': c.ids, 'n': c.n, 'compressed': c.comp, 'edition': c.edition}, nontrivial=P.nontrivial(c),
-                     sample=len(ctx.samples) < 6)
-            ctx.traces += 1
-            ctx.count('compressed' if c.comp else 'uncompressed')
-            ctx.count('edition-%d' % c.edition)
-            for f in P.classify(c.ids):
-                ctx.count(f)
-            if impl[0] != 'ok':
-                ctx.count('decode-' + impl[0])
-            why = P.compare_decode(impl, model)
-            if why:
-                def still(c2, b=b):
-                    cs = P.gen_values(drv, treq, [c2], ctx.rng('shrink'))
-                    if not cs:
-                        return False
-                    e = P.run_encode(drv, treq, cs)[0]
-                    if e[1][0] != 'ok':
-                        return False
-                    r = P.run_decode(drv, treq, [(c2, e[1][1])])[0]
-                    return P.compare_decode(r[2], r[3]) is not None
-                small = P.shrink(c, still)
-                if small is not c:
-                    cs = P.gen_values(drv, treq, [small], ctx.rng('shrink'))
-                    e = P.run_encode(drv, treq, cs)[0]
-                    r = P.run_decode(drv, treq, [(small, e[1][1])])[0]
-                    report(ctx, small, P.compare_decode(r[2], r[3]) or why, e[1][1])
-                else:
-                    report(ctx, c, why, b)
+        run_single(ctx, drv, treq, P.gen_values(drv, treq, cases, rng), 'grammar')
+    t_c = time.time()
+    # (c) operator chains: bit-maps defined, recalled, cancelled, re-defined (own generator + the one of the C07 check)
+    rc = ctx.rng('chains')
+    n_own, n_c07 = (150, 150) if quick else (2500, 2500)
+    for off in range(0, n_c07, 300):
+        cases = c07_chain_cases(ctx, drv, treq, rc, min(300, n_c07 - off))
+        if cases is None:
+            n_own += n_c07 - off
+            ctx.count('c07-chain-generator-unavailable')
+            break
+        run_single(ctx, drv, treq, cases, 'chains-c07', shrinkable=False)
+    for off in range(0, n_own, 300):
+        cases = G.gen_chain_cases(rc, min(300, n_own - off))
+        for c in cases:
+            c.idx += off
+        run_single(ctx, drv, treq, P.gen_values(drv, treq, cases, rc), 'chains')
+    # (d) the same descriptors under several table groups, one Decoder object
+    t_d = time.time()
+    rf = ctx.rng('families')
+    n_fam = 150 if quick else 2000
+    for off in range(0, n_fam, 120):
+        run_families(ctx, drv, rf, min(120, n_fam - off))
+    ctx.notes.append('wall: corpus %.1fs, grammar %.1fs, chains %.1fs, families %.1fs' % (t_b - ctx.t0, t_c - t_b, t_d - t_c, time.time() - t_d))
+    ctx.notes.append('implementation objects: %s (harness/objs.py: one aged Decoder/Encoder per option set, re-used for every case)' % objs.policy())
+
+
+def replay_family(ctx, rep):
+    """the recorded sequence on one re-used Decoder object, then the failing message alone on a new object"""
+    drv = ctx.driver
+    u = G.universe()
+    seq = rep['sequence']
+    groups = [u.group(*e['tables']) for e in seq]
+    ids = rep['ids']
+    res = G.batch_grouped(drv, [(g, {'op': 'dec-data', 'ids': ids, 'compressed': e['compressed'], 'n': e['n_subsets'],
+                                     'bits': C.data_bits(bytes.fromhex(e['message_hex']))}) for g, e in zip(groups, seq)])
+    compiled = COMPILED_MAX if rep.get('variant') == 'compiled' else None
+    whys = []
+    for e, g, model in zip(seq, groups, res):
+        why = P.compare_decode(C.impl_decode(bytes.fromhex(e['message_hex']), compiled), as_mapping(model))
+        whys.append(why)
+        print('replay, re-used decoder: message under %s (%s): %s' % (g.name, e['source'], why or 'agrees with the model'))
+    old = os.environ.get('VERIF_OBJECTS')
+    os.environ['VERIF_OBJECTS'] = 'fresh'
+    try:
+        alone = P.compare_decode(C.impl_decode(bytes.fromhex(seq[-1]['message_hex']), compiled), as_mapping(res[-1]))
+    finally:
+        if old is None:
+            del os.environ['VERIF_OBJECTS']
+        else:
+            os.environ['VERIF_OBJECTS'] = old
+    print('replay, new decoder, last message alone: %s' % (alone or 'agrees with the model'))
+    if any(whys) or alone:
+        kind = 'fails on a new Decoder as well' if alone else 'fails only after the earlier messages on the same Decoder object (history dependent)'
+        ctx.violation('family replay: %s; %s' % (next(w for w in whys + [alone] if w), kind), rep,
+                      signature={'stage': 'family-decode', 'variant': rep.get('variant')})
 
 
 def replay(ctx, path):
@@ -140,12 +395,14 @@ def replay(ctx, path):
         if why:
             ctx.violation('corpus file: ' + why, rep, signature={'stage': 'corpus'})
         return
+    if 'sequence' in rep:
+        return replay_family(ctx, rep)
     c = P.Case([rep['ids']], rep.get('forced', []), rep['n_subsets'], rep['compressed'], rep.get('edition', 4))
     c.valss = rep['values']
     treq = tables_io.group_request()
     b = bytes.fromhex(rep['message_hex'])
     r = P.run_decode(drv, treq, [(c, b)])[0]
-    why = P.compare_decode(r[2], r[3])
+    why = P.compare_decode(r[2], as_mapping(r[3]))
     print('replay:', why or 'implementation and model agree')
     if why:
         report(ctx, c, why, b)
